@@ -471,8 +471,12 @@ def check_c14(pid, tier, build, props):
                        "removes every arc into S, adds the new block exactly once; insert_block changes only "
                        "predecessors (their back edges untouched) and creates the new block with successors S; "
                        "join_returns is a no-op with <=1 exit and otherwise adds one exit reached from every former "
-                       "exit. Per result (verified checker cb_ok): each rerouted arc of the control-block variant has "
-                       "its own assignment block and the head's table leads to the arc's original target. Tie: exact, "
+                       "exit. The control-block variant, for EVERY graph, P, S and supply of fresh names (Model/Edits3.v, "
+                       "C14_control_blocks): the head has exactly the successors S; a predecessor keeps arity, back "
+                       "edges and every successor outside S in place; every position into S holds its own assignment "
+                       "block (none shared inside or between predecessors) that continues to the head and sets the "
+                       "control variable to a value the table sends to the arc's original target; all other blocks "
+                       "untouched. The same is also decided per result by the verified checker cb_ok. Tie: exact, "
                        "order-faithful correspondence of all four primitives incl. KeyError/AssertionError outcomes. "
                        "Not proved: path preservation under arbitrary SEQUENCES of edits (decided per pipeline run by "
                        "C01's checker); region predecessors are modelled at the level of the region's own targets "
